@@ -190,6 +190,19 @@ CLAIMED = {
         "contract-based deductive verification: symbolic execution of the real simulate code on enumerated shapes with fully symbolic values (own VC generator, z3)",
         "DESIGN.md §3 C17",
     ),
+    "C03": (
+        "other",
+        "Proved by symbolic execution of the REAL interface and model code: dict / dataclass / named-tuple interfaces satisfy put/get, "
+        "non-mutation of the input state, other fields kept, log_prob = user function; LieselInterface (and GooseModel) on the enumerated "
+        "shapes, user model with auto-update on and off: update_state(p, s) equals node by node the state reached by direct assignment + full "
+        "update on a fresh model, nothing outdated, independent of earlier calls, s and the user's model observably untouched (constructor "
+        "and calls), extract_position gives p back (variable and node names), log_prob = model log-probability. The clause 'the same eagerly, "
+        "under JIT and under batching' cannot be decided deductively here (A-JIT / A-VMAP are assumptions of the framework) and is BOUNDED "
+        "(eager = jit = vmap natively), hence level 'other'.",
+        "graph shapes enumerated; A-PY deepcopy/copy/_replace; A-NX; eager Python semantics.",
+        "contract-based deductive verification: symbolic execution of the real interface/model code on enumerated shapes (own VC generator, z3) + bounded eager/jit/vmap agreement",
+        "DESIGN.md §3 C03",
+    ),
 }
 
 NOT_APPLICABLE = {
